@@ -25,6 +25,16 @@ fn random_case(rng: &mut Rng, s: &str) -> String {
 }
 
 pub fn c04(rng: &mut Rng, tier: &str, idx: usize) -> Case {
+    if idx == 3 {
+        // more than 65 535 terms (implementation against the harness oracle only): lookups, links,
+        // distances, set operations, common ancestors, sub-ontology and comparison on terms in arena
+        // slots beyond 65 535
+        let mut c = Case::new("big-arena");
+        c.op(format!("bigarena 70000 {}", rng.next()));
+        c.stat("big_arena_terms", 70000);
+        c.nontrivial = true;
+        return c;
+    }
     if idx % 60 == 47 {
         // a term with ~65 000 records and a child with a few hundred of them: |A| + |B| beyond the
         // u16 range while the union and the ontology stay within it (set-size arithmetic of the
@@ -218,6 +228,16 @@ fn gen_subset(rng: &mut Rng, ids: &[u32], size: usize) -> Vec<u32> {
 }
 
 pub fn c05(rng: &mut Rng, _tier: &str, idx: usize) -> Case {
+    if idx == 3 {
+        // more than 65 535 terms (implementation against the harness oracle only): lookups, links,
+        // distances, set operations, common ancestors, sub-ontology and comparison on terms in arena
+        // slots beyond 65 535
+        let mut c = Case::new("big-arena");
+        c.op(format!("bigarena 70000 {}", rng.next()));
+        c.stat("big_arena_terms", 70000);
+        c.nontrivial = true;
+        return c;
+    }
     if idx % 52 == 27 {
         // one-row matrices at the u16 limit of a dimension: 1 x 65 535 (rows + cols beyond the
         // limit, each dimension within it), 1 x 65 534, 1 x 65 536 (documented panic), 1 x 40 000
